@@ -7,6 +7,7 @@ lines from the real crate is `harness/src/prop/c04.rs`.
 ```
 P := <e>,<fmt>,<ver>,<asz>,<minlen>,<maxops>,<stmt>,<lbase>,<lrange>,<obase>,<stdlens-hex>
 line-rows  P <program-hex>          all results of next_row() until Ok(None)
+line-instrs P <program-hex>         header.instructions() until Ok(None) / the first error
 line-seqs  P <program-hex>          sequences() and resume_from() of each
 line-abs   P <instr>*               abstract program: Spec encoding, then as line-rows
 line-hdr   <e> <asz> <off> <compdir|~> <compname|~> <section-hex>
@@ -65,6 +66,7 @@ def rowS (r : Row) : String :=
 def evS : Ev → String
   | .row r => rowS r
   | .err e => "err:" ++ e.name
+  | .hidden _ => "hidden"
   | .stuck => "stuck"
 
 def evsS (evs : List Ev) : String :=
@@ -150,6 +152,30 @@ def parseInstrTok (s : String) : Option Instr :=
   | ["ux", op, d] => do pure (.unknownExtended (← nat? op) (← parseHex d))
   | _ => none
 
+/-- decoded instruction as a token (the `line-abs` vocabulary; `unx` carries the raw operand bytes) -/
+def instrS : Instr → String
+  | .special n => s!"sp:{n}"
+  | .copy => "cp"
+  | .advancePc n => s!"apc:{n}"
+  | .advanceLine i => s!"al:{i}"
+  | .setFile n => s!"sf:{n}"
+  | .setColumn n => s!"sc:{n}"
+  | .negateStatement => "ns"
+  | .setBasicBlock => "bb"
+  | .constAddPc => "cap"
+  | .fixedAddPc n => s!"fap:{n}"
+  | .setPrologueEnd => "pe"
+  | .setEpilogueBegin => "eb"
+  | .setIsa n => s!"isa:{n}"
+  | .unknownStandard0 op => s!"u0:{op}"
+  | .unknownStandard1 op a => s!"u1:{op}:{a}"
+  | .unknownStandardN op args => s!"unx:{op}:{toHex args}"
+  | .endSequence => "es"
+  | .setAddress a => s!"sa:{a}"
+  | .defineFile f => "df:" ++ fileS f
+  | .setDiscriminator n => s!"sd:{n}"
+  | .unknownExtended op d => s!"ux:{op}:{toHex d}"
+
 def withParams (ps : String) (k : Params → String) : Option String := do
   let p ← parseParams ps
   if !buildable p then pure "bad-args" else
@@ -165,6 +191,11 @@ def handle (op : String) (args : List String) : Option String :=
   | "line-rows", [ps, prog] => do
     let prog ← parseHex prog
     withParams ps fun p => "ok " ++ evsS (run p prog)
+  | "line-instrs", [ps, prog] => do
+    let prog ← parseHex prog
+    withParams ps fun p =>
+      let (is, e) := decodePrefix p (prog.length + 1) prog
+      "ok " ++ " ".intercalate (is.map instrS ++ [match e with | none => "end" | some e => "err:" ++ e.name])
   | "line-seqs", [ps, prog] => do
     let prog ← parseHex prog
     withParams ps fun p => seqsS p (sequences p prog)
